@@ -79,13 +79,16 @@ def workloads(ck):
                 cases.append({'f': f['name'], 'a': a, 't': 'pygen'})
         W.append(('c39py%d' % i, src, '.py', cases))
     from props import C36
-    src, cases = C36.c02_sample(ck, ck.pick(200, 900))
+    src, cases = C36.c02_sample(ck, ck.pick(40, 600))
     W.append(('c39arith', src, '.py', cases))
     hc = hostile.cases(rng)
     byf = {}
     for c in hc:
         byf.setdefault(c['f'], []).append(c)
     hc = []
+    byf.pop('mv_uninit', None)
+    # recursion depth accounting legitimately differs between call paths (binding on/off): only shallow recursion here
+    byf['recurse'] = [c for c in byf.get('recurse', []) if c['a'] in ('(0,)', '(10,)', '(300,)')]
     for f, cs in byf.items():
         # the uninitialised / out-of-bounds probes raise in every configuration; garbage is never produced by these templates
         hc.extend(cs if len(cs) <= ck.pick(25, 80) else rng.sample(cs, ck.pick(25, 80)))
@@ -229,7 +232,12 @@ def main(ck):
                     fn = cs.get('f', '?')
                     fkey = 'generated' if re.match(r'fz\d+z', fn) else fn
                     oc = lambda x: x[0] + ':' + (x[1][0] if x[0] == 'ok' else str(x[1]))
-                    ck.discrepancy('cell=%s:%s:%s:%s->%s' % (c['name'], name.rstrip('0123456789'), fkey, oc(base[i]), oc(o)),
+                    key = 'cell=%s:%s:%s:%s->%s' % (c['name'], name.rstrip('0123456789'), fkey, oc(base[i]), oc(o))
+                    if re.match(r'(to_\w+|obj_to_int|chr_\w+)$', fn) and re.search(r'Idx|IntOnly|F\(|\d\.\d|inf|nan|\'', cs.get('a', '')):
+                        # C-integer conversion of an object that is not an int instance: which protocol is consulted
+                        # (nb_int / nb_index / PyNumber_Long) depends on the type-slots configuration (see C05)
+                        key = 'cint-conversion-of-non-int-object:cell=%s' % c['name']
+                    ck.discrepancy(key,
                                    'case %s%s differs between base and %s: %s vs %s' % (fn, cs.get('a'), c['name'], str(base[i])[:160], str(o)[:160]),
                                    {'cell': {k: c[k] for k in ('name', 'cc', 'opt', 'cflags', 'cplus', 'directives')}, 'module_source': src,
                                     'module_name': name, 'ext': ext, 'case': cs, 'base_outcome': base[i], 'cell_outcome': o,
